@@ -208,7 +208,7 @@ func (ms *mapSym) exec(stmts []ast.Stmt) bool {
 				}
 			}
 			if len(s.Lhs) == 1 && len(s.Rhs) == 1 {
-				if id, ok := s.Lhs[0].(*ast.Ident); ok && isIntType(ms.info.TypeOf(id)) {
+				if id, ok := s.Lhs[0].(*ast.Ident); ok && id.Name != "_" && ms.info.TypeOf(id) != nil && isIntType(ms.info.TypeOf(id)) {
 					o := ms.info.Defs[id]
 					if o == nil {
 						o = ms.info.Uses[id]
